@@ -371,6 +371,48 @@ impl Scenario for Restart {
                     })?;
                 }
                 ctx.nontrivial = !pre.is_empty() && !post.is_empty();
+                if spec.kind.is_set() && spec.m <= 64 {
+                    // the register type is a type parameter whose bounds also admit signed integers and u64:
+                    // the same history item-wise on those instantiations (signature read right after the restart, too)
+                    let flat = |ops: &[ROp]| -> Vec<u64> {
+                        let mut v = vec![];
+                        for op in ops {
+                            match op {
+                                ROp::Item(i) => v.push(*i),
+                                ROp::Chunk(c) => v.extend(c.iter().copied()),
+                                _ => {}
+                            }
+                        }
+                        v
+                    };
+                    let (fpre, fpost) = (flat(pre), flat(post));
+                    let params = spec.setp.unwrap().params(spec.m);
+                    macro_rules! other_register_type {
+                        ($I:ty, $name:expr) => {{
+                            use probminhash::setsketcher::SetSketcher;
+                            let bh = std::hash::BuildHasherDefault::<fnv::FnvHasher>::default();
+                            let mut a = SetSketcher::<$I, u64, fnv::FnvHasher>::new(params, bh.clone());
+                            for i in &fpre {
+                                let _ = a.sketch(i);
+                            }
+                            a.reinit();
+                            let mut b = SetSketcher::<$I, u64, fnv::FnvHasher>::new(params, bh);
+                            let mut same = a.get_signature() == b.get_signature();
+                            for i in &fpost {
+                                let (ra, rb) = (a.sketch(i).is_ok(), b.sketch(i).is_ok());
+                                same = same && ra == rb;
+                            }
+                            same = same && a.get_signature() == b.get_signature();
+                            ctx.count("probe:other-register-types-restarted");
+                            ctx.check("C13", "restarted-equals-fresh", same, || {
+                                format!("SetSketcher<{}> m {}: after reinit the signature (empty or after {} items) differs from a fresh sketcher's", $name, spec.m, fpost.len())
+                            })?;
+                        }};
+                    }
+                    other_register_type!(i32, "i32");
+                    other_register_type!(i64, "i64");
+                    other_register_type!(u64, "u64");
+                }
                 Ok(())
             }
             RestartPlan::P2 { elem, hash, m, pre, post, pre_mode, post_mode } => {
